@@ -4,12 +4,14 @@ package controller
 
 import (
 	"strconv"
+	"time"
 
 	"github.com/atlassian/escalator/pkg/cloudprovider"
 	v1 "k8s.io/api/core/v1"
 )
 
 func init() {
+	verifHarnesses["VerifHarness_C20_forever"] = VerifHarness_C20_forever
 	verifHarnesses["VerifHarness_C18_nolock"] = VerifHarness_C18_nolock
 	verifHarnesses["VerifHarness_C19_scan"] = VerifHarness_C19_scan
 	verifHarnesses["VerifHarness_C20"] = VerifHarness_C20
@@ -272,4 +274,92 @@ func VerifHarness_C20_postcooldown() {
 	err := w.ctrl.RunOnce()
 	verifAssert("C20.post-cooldown-scan-completes", err == nil)
 	verifReach("C20.registration-lag-lookup")
+}
+
+
+// VerifHarness_C20_forever: the main loop. RunForever(true) scans immediately and then on
+// every tick until the stop channel closes (the harness closes it at the start of the K-th
+// scan). One API call per budget may fail in any scan. The loop must outlive every non-fatal
+// problem, scan K times, and return at once when a scan reports the not-in-group condition.
+// shape: [nodes, scans K, failure budget]
+func VerifHarness_C20_forever() {
+	N, K, F := verifShape(0), verifShape(1), verifShape(2)
+	w := newWorld(F)
+	o := groupOpts(0)
+	gm := graceMenus[1]
+	o.SoftDeleteGracePeriod, o.HardDeleteGracePeriod = gm.soft, gm.hard
+	o.MinNodes, o.MaxNodes = 0, N+4
+	g := w.addGroup(o, 0, int64(N)+4, int64(N)+1) // desired leaves room to remove every node but one
+	w.addNode(g, tcNone, false, 0, 0, 9000, true)
+	anyForeign := false
+	foreignDueAt := 0 // the first scan in which a removable node outside the cloud group is met (0: never)
+	for i := 1; i <= N; i++ {
+		is := "n" + strconv.Itoa(i)
+		class := []int{tcNone, tcEsc, tcForce}[verifChoice(is+".class", 3)]
+		member := verifChoice(is+".member", 2) == 1
+		// tainted 1000 s ago (past the hard period in scan 1) or just now (due from scan 2 on,
+		// before which the clock jumps)
+		late := class == tcEsc && verifChoice(is+".late", 2) == 1
+		age := int64(1000)
+		if late {
+			age = 0
+		}
+		w.addNode(g, class, false, 0, age, int64(5000+100*i), member)
+		if !member {
+			anyForeign = true
+		}
+		if !member && class == tcEsc {
+			at := 1
+			if late {
+				at = 2
+			}
+			if foreignDueAt == 0 || at < foreignDueAt {
+				foreignDueAt = at
+			}
+		}
+	}
+	// no pods: every scan is a scale-down scan, so the reaper runs and asks the cloud to remove what is due
+	w.build()
+	stop := make(chan struct{})
+	w.ctrl.stopChan = stop
+	w.ctrl.Opts.ScanInterval = time.Second
+	w.onPodList = func() {
+		if w.podLists == 2 {
+			verifFreezeClock(w.base+2001, 0)
+		}
+		if w.podLists == K {
+			close(stop)
+		}
+	}
+	verifFreezeClock(w.base+1, 0)
+	err := w.ctrl.RunForever(true)
+	verifUnfreezeClock()
+	verifAssert("C20.loop-always-returns-an-error", err != nil)
+	if err == nil {
+		return
+	}
+	_, notInGroup := err.(*cloudprovider.NodeNotInNodeGroup)
+	stopped := err.Error() == "main loop stopped"
+	rebuildFailed := w.builder.Failed > 0
+	verifAssert("C20.loop-ends-only-when-stopped-or-documented", notInGroup || stopped || verifKnown("K-C20-rebuild", rebuildFailed))
+	if stopped {
+		verifAssert("C20.loop-scans-until-stopped", w.podLists >= K)
+		verifReach("C20.loop-stopped-after-K-scans")
+		if w.J.Failed > 0 {
+			verifReach("C20.loop-survived-a-failed-call")
+		}
+	}
+	if F == 0 && foreignDueAt > 0 && foreignDueAt <= K {
+		// C19: a removable node that is not a member of the cloud group makes escalator exit
+		verifAssert("C20.not-in-group-ends-the-loop", notInGroup)
+		verifAssert("C20.not-in-group-ends-the-loop-at-once", w.podLists == foreignDueAt)
+		verifReach("C20.loop-ended-by-not-in-group")
+		if foreignDueAt == 2 {
+			verifReach("C20.loop-ended-by-not-in-group-on-a-tick")
+		}
+	}
+	if F == 0 && !anyForeign {
+		// (an untainted node outside the cloud group may be tainted by scan 1 and fall due in scan 2)
+		verifAssert("C20.loop-runs-to-the-stop", stopped)
+	}
 }
